@@ -5,7 +5,7 @@ import common
 import xh
 
 HARNESS = os.path.join(os.path.dirname(__file__), "harness", "h_c01.py")
-NCONSTRAINTS = 17
+NCONSTRAINTS = 23
 
 
 def keyfn(r):
@@ -44,7 +44,7 @@ def configs(tier, mode, pid):
         sets, nsol, lim, to = "1=0,1,2;2=0,2;3=0,1;4=0,1;5=1,2,4,7;6=0,1;7=0,1", "8", "25", 3500
     cfgs = []
     for ci, opt in ((c, o) for c in range(NCONSTRAINTS) for o in (0, 1)):
-        if mode == "c01" and ci in (16,):
+        if mode == "c01" and ci in (22,):
             continue      # exception-contract only (see harness)
         my_sets = sets
         if tier == "quick" and ci in (2, 4, 8):      # slow constraints: one instantiation-limit setting in the quick tier
